@@ -449,6 +449,9 @@ fn build_matcher_tree(
     // multiple-character flags don't start with a double dash
     let mut i = arg_index;
     let mut invert_next_matcher = false;
+    // Set by an operator ('!', -a, -o, ','): the next token has to start an
+    // operand, so another binary operator right after it is an error.
+    let mut operand_required = false;
     while i < args.len() {
         let possible_submatcher = match args[i] {
             "-print" => Some(Printer::new(PrintDelimiter::Newline, None).into_box()),
@@ -783,6 +786,7 @@ fn build_matcher_tree(
                     )));
                 }
                 invert_next_matcher = !invert_next_matcher;
+                operand_required = true;
                 None
             }
             "-and" | "-a" => {
@@ -792,7 +796,14 @@ fn build_matcher_tree(
                         args[i]
                     )));
                 }
+                if operand_required {
+                    return Err(From::from(format!(
+                        "invalid expression; you have used a binary operator '{}' with nothing before it.",
+                        args[i]
+                    )));
+                }
                 top_level_matcher.check_new_and_condition()?;
+                operand_required = true;
                 None
             }
             "-or" | "-o" => {
@@ -802,7 +813,14 @@ fn build_matcher_tree(
                         args[i]
                     )));
                 }
+                if operand_required {
+                    return Err(From::from(format!(
+                        "invalid expression; you have used a binary operator '{}' with nothing before it.",
+                        args[i]
+                    )));
+                }
                 top_level_matcher.new_or_condition(args[i])?;
+                operand_required = true;
                 None
             }
             "," => {
@@ -812,7 +830,14 @@ fn build_matcher_tree(
                         args[i]
                     )));
                 }
+                if operand_required {
+                    return Err(From::from(format!(
+                        "invalid expression; you have used a binary operator '{}' with nothing before it.",
+                        args[i]
+                    )));
+                }
                 top_level_matcher.new_list_condition()?;
+                operand_required = true;
                 None
             }
             "(" => {
@@ -951,6 +976,7 @@ fn build_matcher_tree(
             break;
         }
         if let Some(submatcher) = possible_submatcher {
+            operand_required = false;
             if invert_next_matcher {
                 top_level_matcher.new_and_condition(NotMatcher::new(submatcher));
                 invert_next_matcher = false;
